@@ -23,7 +23,9 @@ PATTERNS = ['foo', 'bar', r'\.count$', '^carbon', '^a', 'z$', 'a|b', '[0-9]+', '
             # groups, back-references, named groups, inline flags: each LINE is one regular expression of its own
             r'^(\w+)\.\1\.', r'^(carbon|servers|stats)\.', r'(a|b)\.(c|d)', r'(\d)\1', r'(?P<h>web\d+)\.(?P=h)', r'(?P<h>x)y',
             r'^(?:prod|stage)\.(api)\.\1', r'(?i)^WEB', r'(.)\1$']
-NOISE = ['# a comment', '', '   ', '#', '(', '[a', '*x', '(?P<n', '\\']
+NOISE = ['# a comment', '', '   ', '#', '(', '[a', '*x', '(?P<n', '\\',
+         # every way re.compile can fail (errors with and without a position, with and without a pattern line number)
+         '(?<=ab|xyz)cd', '(?<!a*)b', '(?P<h>x)(?P<h>y)', 'a{2,1}', '[z-a]', '(?z)', '\\1', '(?P=nope)', 'a**', '(?i', '\\N{nope}']
 NAMES = ['foo', 'foo.bar', 'a', 'z', 'carbon.agents.x', 'servers.web1.cpu.idle', 'servers.web22.mem', 'xx', 'CPU.load', 'cpu.load',
          'ok.fine', 'prod.api.count', 'stage.api.hits', 'tmp', 'é.metric', 'nomatch', 'Q', '12', 'b', 'abc.def.count', 'bar.baz',
          'web01.web01.load', 'host7.host7.cpu', 'a.c', 'b.d.x', 'n.11', 'web3.web3', 'web3.web4', 'prod.api.api', 'stage.api.apx', 'Web.x', 'zz']
